@@ -501,8 +501,8 @@ theorem fix_ofTrie (e : Env) (pre pk : Nibs) (bv : Option Bytes) (cs : Nib → T
       rw [resolve_ofTrie e _ (cs i) hci]
       cases hc : cs i with
       | nil => exact absurd hc hci
-      | leaf cpk cv => simp [ofTrie, Hd.cached]
-      | branch cpk cv ccs => simp [ofTrie, Hd.cached]
+      | leaf cpk cv => simp [ofTrie, Hd.cached, fixMerge, childDeath]
+      | branch cpk cv ccs => simp [ofTrie, Hd.cached, fixMerge, childDeath]
   · rw [h2]
     cases bv <;> simp [ofTrie]
 
